@@ -147,6 +147,13 @@ impl NameMap {
 
         let mut used_names_all_scopes = reserved_name_set.clone();
 
+        #[cfg(rssl_verif)]
+        rssl_text::verif::probe(
+            "ir::name_generator::scopes",
+            scopes.len(),
+            rssl_text::verif::order_sig(scopes.keys()),
+        );
+
         for scope in &scopes {
             // Record used names within the current scope
             // Names may be reused in different namespaces
@@ -156,6 +163,12 @@ impl NameMap {
 
             // Sort map first to ensure if a name generates a conflict with another generated name it will be consistent
             let mut name_to_symbol_vec = Vec::from_iter(scope.1.iter());
+            #[cfg(rssl_verif)]
+            rssl_text::verif::probe(
+                "ir::name_generator::names_in_scope",
+                name_to_symbol_vec.len(),
+                rssl_text::verif::order_sig(name_to_symbol_vec.iter().map(|e| e.0)),
+            );
             name_to_symbol_vec.sort_by(|l, r| String::cmp(l.0, r.0));
 
             for (name, symbols) in name_to_symbol_vec {
